@@ -442,6 +442,7 @@ pub fn pairs(ctx: &mut Ctx) {
         for pi in 0..progs.len() {
             let id = ctx.next_id;
             ctx.next_id += 1;
+            ctx.mark_case(id);
             // a replay re-executes the shard's history up to the requested pair and records only that one
             if !mine || ctx.only.map(|o| id > o).unwrap_or(false) {
                 continue;
